@@ -50,6 +50,10 @@ pub fn plan(seed: u64) -> Plan {
             }
             // some versions are committed without a build (pending updates survive the commit); the last one always builds
             let build = v + 1 == nv || v == 0 || rng.gen_bool(0.65);
+            // and some of those touch nothing but the version-carrying item (id u32::MAX): one pending mark, at the very end
+            if !build && rng.gen_bool(0.4) {
+                ops.clear();
+            }
             (ops, [None, Some(2usize), Some(3)][rng.gen_range(0..3)], [None, Some(1usize), Some(2)][rng.gen_range(0..3)], rng.gen(), build)
         })
         .collect();
